@@ -61,6 +61,9 @@ func main() {
 				cfg.Inline = func(f *ssaFunction) bool { return true }
 			case "none":
 				cfg.Inline = func(f *ssaFunction) bool { return f.Parent() != nil }
+			case "authn":
+				cfg.Inline = authnInline(P)
+				cfg.ForceInline = func(f *ssaFunction) bool { return f.String() == pkgJWT+".ParseWithClaims" }
 			}
 		}
 		ex := P.Explore(fn, cfg)
